@@ -151,7 +151,7 @@ def _last_header_is_trailing_replicate(e: bytes) -> bool:
 
 # ---- the check -------------------------------------------------------------------------
 def run(ctx: core.Run):
-    gen = extract.gen_rle(ctx)
+    gen = ctx.regenerate(extract.gen_rle)
     ctx.prove(["PsdVerif.Props.C05"])
     ctx.trusted_base += [
         "Lean 4.33 kernel; axioms allowed: propext, Classical.choice, Quot.sound (audited per theorem)",
